@@ -392,6 +392,15 @@ def judge_call(c, files, rec, st):
     elif op == "ptb_delete_traces":
         exp = ref_delete_traces(sent, params)
         if exp is None:
+            # every token is a trace to be deleted: the shape of what is left is not
+            # documented, but "no trace token remains" still holds
+            st.probe("all_tokens_are_deleted_traces")
+            if "exc" not in rec and rec["ok"] is not None:
+                left = [r["d"][treeview.L_WORD] for r in rec["ok"]["nodes"]
+                        if r["d"][treeview.L_LABEL] == "-NONE-"]
+                if left:
+                    return cm.viol("C11/ptb_delete_traces/trace-remains-in-emptied-sentence",
+                                   params=params, left=left)
             return None
         if "slash" in params and all(t[1] == "-NONE-" for t in sent["tokens"]):
             return None     # slash deletes traces without filler: sentence may become empty
@@ -520,7 +529,8 @@ def execute(sc, sim):
                "failed_terminal_file_load", "out_of_range_or_index0_request",
                "other_sentence_ids_only", "punctuation_only_sentence", "keep_with_keepcoindex",
                "tree_filtered_out", "two_sessions_interleaved", "slash_annotation_judged",
-               "slash_annotation_present", "slash_annotation_rejected")
+               "slash_annotation_present", "slash_annotation_rejected",
+               "all_tokens_are_deleted_traces")
     spec = build_spec(sc)
     obs = sim.run(spec)
     st.add_obs(obs)
